@@ -299,6 +299,85 @@ Definition in_region_auto (config o : cmeta) : bool :=
   | None => false
   end.
 
+(* ---- earlier uses of the class in the same interpreter ----------------------
+   The tables a generated function is built from are global and keyed by class: the per-class
+   loader / dumper attributes and dump hooks written by bind_to (bases_meta.py), the dump-key
+   table filled by the first dump function generated for the class (dumpers.py: `json_field =
+   dataclass_to_json_field[field]` / `... = cls_dumper.transform_dataclass_field(field)`), the
+   default engine's `json_to_field[meta.tag_key] = ExplicitNull` (loaders.py), v1's alias table
+   (`field_to_aliases[name] = (alias,)` when the key case renames the field, v1/loaders.py).
+   Everything else is read from the merged Meta when a function is generated (once per root). *)
+Inductive ukind := UDump | ULoad.
+
+(* u_root: None = the class is used on its own (it is the main class);
+           Some r = reached under a root whose Meta is r (Some None: a root without Meta) *)
+Record use := { u_kind : ukind; u_root : option cmeta }.
+
+Record gstate := {
+  g_bind : binding;
+  g_dump_keys : option (option sval);   (* transform the dump-key table was filled under *)
+  g_whitelist : list sval;              (* default engine: tag keys stored as ExplicitNull *)
+  g_v1_alias : option sval              (* v1: key case whose alias went into the alias table *)
+}.
+
+Definition g0 (o : cmeta) : gstate :=
+  {| g_bind := own_binding o; g_dump_keys := None; g_whitelist := []; g_v1_alias := None |}.
+
+Definition config_of_use (u : use) : cmeta :=
+  match u_root u with None => None | Some r => root_config_v0 r end.
+
+(* does the key case spell a multi-word field name differently from the name itself? *)
+Definition renames (o : option sval) : bool :=
+  match o with
+  | Some v => negb (is_none v) && negb (sval_eqb v (VStr (S "SNAKE")))
+  | None => false
+  end.
+
+Definition not_none (o : option sval) : bool := match o with Some v => negb (is_none v) | None => false end.
+
+Definition step (o : cmeta) (g : gstate) (u : use) : gstate :=
+  let config := config_of_use u in
+  let m := bound_meta config o in
+  let b := match config, m with
+           | Some _, Some mm => bind_to mm (g_bind g)
+           | _, _ => g_bind g
+           end in
+  let v1 := otruthy (cget (S "v1") m) in
+  {| g_bind := b;
+     g_dump_keys := match u_kind u, g_dump_keys g with
+                    | UDump, None => Some (dp_case b)
+                    | _, k => k
+                    end;
+     g_whitelist := match u_kind u with
+                    | ULoad => if negb v1 && not_none (cget k_tag m)
+                               then or_tag (cget k_tag_key m) :: g_whitelist g else g_whitelist g
+                    | UDump => g_whitelist g
+                    end;
+     g_v1_alias := match u_kind u, g_v1_alias g with
+                   | ULoad, None => if v1 && negb (not_none (cget (S "v1_field_to_alias") o)) && renames (ld_case b)
+                                    then ld_case b else None
+                   | _, a => a
+                   end |}.
+
+Definition run_uses (o : cmeta) (h : list use) : gstate := fold_left (step o) h (g0 o).
+
+(* behaviour of the function generated for the observation `u` after the earlier uses `h` *)
+Definition hist_behaviour (o : cmeta) (h : list use) (u : use) : behaviour :=
+  let g := step o (run_uses o h) u in
+  let b := g_bind g in
+  behaviour_of (bound_meta (config_of_use u) o)
+    {| ld_case := ld_case b;
+       dp_case := match g_dump_keys g with Some k => k | None => dp_case b end;
+       dt_timestamp := dt_timestamp b |}.
+
+Definition hist_whitelist (o : cmeta) (h : list use) (u : use) : list sval := g_whitelist (step o (run_uses o h) u).
+Definition hist_v1_alias (o : cmeta) (h : list use) (u : use) : option sval := g_v1_alias (step o (run_uses o h) u).
+
+(* the components that are read from the merged Meta only *)
+Definition stable_part (b : behaviour) :=
+  (b_skip_defaults b, b_skip_if b, b_skip_defaults_if b, b_raise_unknown b, b_v1_unknown b, b_tag b, b_tag_key b,
+   b_keymap b, b_v1alias b).
+
 (* ---- encoders for the correspondence harness ------------------------------ *)
 Definition show_sval (v : sval) : pstr :=
   match v with
@@ -322,6 +401,11 @@ Definition show_impl (e : engine) (root o : cmeta) : pstr :=
   show_behaviour (impl_behaviour (root_config e root) o) (impl_union_auto (root_config e root)).
 Definition show_spec (root o : cmeta) : pstr :=
   show_behaviour (spec_behaviour (effective o root)) (spec_union_auto (effective o root)).
+
+Definition show_hist (o : cmeta) (h : list use) (u : use) : pstr :=
+  show_behaviour (hist_behaviour o h u) (impl_union_auto (config_of_use u))
+  ++ S "|" ++ join (S ",") (map show_sval (hist_whitelist o h u))
+  ++ S "|" ++ show_o (hist_v1_alias o h u).
 
 Definition show_nodes (l : list node) : pstr :=
   join (S ";") (map (fun n => n_name n ++ S "=" ++ show_behaviour (behaviour_of (n_meta n) default_binding) false) l).
